@@ -20,7 +20,7 @@ RULE = (
     "order = sorted names) / sympy matrix polynomial in symbols (explicit `symbols` in a permuted order) / sympy matrix with analytic "
     "dependences sin, exp, cos-1, x/(1+x) (oracle: the harness's own Taylor coefficients fed as a dict) / pre-split nested block "
     "lists / user BlockSeries (scalar and pre-split); dense / sparse / sympy values; subspace_indices / identity-column eigenvectors "
-    "(dense and sparse) / a random unitary or biorthogonal eigenbasis with the correspondingly rotated Hamiltonian. All outputs "
+    "(dense and sparse) / a random unitary or biorthogonal eigenbasis with the correspondingly rotated Hamiltonian; user-supplied two-argument and legacy one-argument Sylvester solvers equivalent to the built-in one. All outputs "
     "(H_tilde, U, U_inv, every block, every order up to the bound) must agree with the canonical encoding (indices + dict + dense): "
     "exactly between exact encodings, to 1e-9 x size of terms otherwise. Separately operator_to_BlockSeries is compared block by "
     "block with the dense L_i^dagger A R_j. Non-trivial: perturbation couples an eliminated pair, order bound >= 2; distinct = "
@@ -208,6 +208,38 @@ def run_formats(spec):
     _compare("user BlockSeries (pre-split)", ref_f, _extract_raw(outs, p, orders, False), orders, False, mag)
     counters["encodings"] += 1
 
+    # --- user-supplied Sylvester solvers (two-argument form; legacy one-argument form for two Hermitian blocks)
+    if not p.fd and not p.masks and len(p.sizes) >= 2:
+        import warnings as _w
+
+        from pymablock.series import zero as _zero
+
+        labels_ = np.array(idx_kwargs["subspace_indices"])
+        Elab = np.real_if_close(np.diag(np.asarray(lab[z].toarray() if sparse.issparse(lab[z]) else lab[z])))
+        Eb = [Elab[labels_ == b] for b in range(len(p.sizes))]
+
+        def solver2(Y, index):
+            if Y is _zero:
+                return _zero
+            Yd = Y.toarray() if sparse.issparse(Y) else np.asarray(Y)
+            return Yd / (Eb[index[0]].reshape(-1, 1) - Eb[index[1]].reshape(1, -1))
+
+        outs = _call(dict(lab), dict(idx_kwargs, solve_sylvester=solver2))
+        _compare("custom two-argument solve_sylvester", ref_f, _extract_raw(outs, p, orders, False), orders, False, mag)
+        counters["encodings"] += 1
+        counters["enc_custom_solver"] += 1
+        if len(p.sizes) == 2 and p.hermitian:
+            def solver1(Y):
+                Yd = Y.toarray() if sparse.issparse(Y) else np.asarray(Y)
+                return Yd / (Eb[0].reshape(-1, 1) - Eb[1].reshape(1, -1))
+
+            with _w.catch_warnings():
+                _w.simplefilter("ignore", DeprecationWarning)
+                outs = _call(dict(lab), dict(idx_kwargs, solve_sylvester=solver1))
+            _compare("legacy one-argument solve_sylvester", ref_f, _extract_raw(outs, p, orders, False), orders, False, mag)
+            counters["encodings"] += 1
+            counters["enc_legacy_solver"] += 1
+
     # --- symbolic encodings (exact): monomial keys, polynomial matrix, analytic matrix
     names_pool = ["alpha", "beta", "gamma", "delta", "eps", "kx", "ky", "mu", "nu", "zeta"]
     chosen = sorted(str(x) for x in rng.choice(names_pool, size=n_par, replace=False))
@@ -380,7 +412,7 @@ def run_case(spec):
 def finalize(c, tier, evaluations, distinct):
     reasons = []
     need = dict(encodings=600, enc_monomial_keys=40, enc_sympy_polynomial=40, enc_sympy_analytic=40, enc_identity_vectors=80,
-                enc_blockseries=40, projection_cases=15, projection_biorthogonal=5, projection_blocks=100)
+                enc_blockseries=40, enc_custom_solver=10, projection_cases=15, projection_biorthogonal=5, projection_blocks=100)
     for k, v in need.items():
         if c.get(k, 0) < v:
             reasons.append(f"{k} observed only {c.get(k, 0)} (< {v})")
